@@ -40,6 +40,21 @@
 (*         compact-proof runs may disconnect                                *)
 (*   mode  "compact" | "streamed"                                           *)
 (*   empty the alphabet contains the single empty block                     *)
+(*   DX    MAX_CLOSING_DEPTH (monitor.rs, 2016): the second depth constant   *)
+(*         the monitor knows.  Only diagnostic() reads it ("AGING_OUR_OUTPUT_*)
+(*         SWEPT at h until h + MAX_CLOSING_DEPTH", with h = our_output_     *)
+(*         swept_height, the channel field oosh below); is_done does not:    *)
+(*         a unilateral close whose main output is swept while an HTLC /     *)
+(*         second-level output is not stays "merely closing" however deeply  *)
+(*         it is buried.                                                     *)
+(*   around  VERY DEEP BURIAL: offsets o; for every depth constant c the     *)
+(*         monitor knows (DepthConsts: D and DX) the alphabet also contains  *)
+(*         Bury(c - 1 + o) / Unbury(c - 1 + o): o = 0 gives the event in the *)
+(*         top block exactly c confirmations.  Every event that is NOT       *)
+(*         sufficient for discarding a channel (funding confirmed only, a    *)
+(*         unilateral close seen only, a close with only some of the node's  *)
+(*         outputs swept - asked to forget or not) must keep the channel     *)
+(*         alive at every one of these depths; RefDone below knows D only.   *)
 (***************************************************************************)
 EXTENDS Integers, Sequences, FiniteSets, SequencesExt, TLC
 
@@ -91,7 +106,7 @@ MkK(D, S, W, maxd, cd, kinds, pairs, bury, rev, mir, mode, empty) ==
              bury |-> bury, rev |-> rev, mir |-> mir, mode |-> mode, empty |-> empty] IN
   [D |-> D, S |-> S, W |-> W, maxd |-> maxd, cd |-> cd, kinds |-> kinds, pairs |-> pairs,
    bury |-> bury, rev |-> rev, mir |-> mir, mode |-> mode, empty |-> empty, crash |-> FALSE,
-   markFirst |-> TRUE, dropOrphans |-> TRUE, tx |-> TxOf(K0)]
+   markFirst |-> TRUE, dropOrphans |-> TRUE, DX |-> D, around |-> {}, tx |-> TxOf(K0)]
 \* the alphabet also contains the crash points inside new / setup / forget requests
 WithCrash(K0, c) == [f \in DOMAIN K0 |-> IF f = "crash" THEN c ELSE K0[f]]
 \* behaviour switches of the crash windows (spec/lifecycle_switches.json):
@@ -101,6 +116,14 @@ WithCrash(K0, c) == [f \in DOMAIN K0 |-> IF f = "crash" THEN c ELSE K0[f]]
 \*                panicked, so that a setup_channel interrupted between its two writes left no signer)
 WithSwitches(K0, mf, dro) == [f \in DOMAIN K0 |-> IF f = "markFirst" THEN mf
                                                   ELSE IF f = "dropOrphans" THEN dro ELSE K0[f]]
+
+\* very deep burial: the second depth constant (MAX_CLOSING_DEPTH) and the offsets around every depth constant
+WithDeep(K0, dx, around) == [f \in DOMAIN K0 |-> IF f = "DX" THEN dx ELSE IF f = "around" THEN around ELSE K0[f]]
+\* every depth constant of monitor.rs
+DepthConsts(K) == {K.D, K.DX}
+\* sizes of the Bury / Unbury macro requests: the plan's own and those around every depth constant (k empty
+\* blocks on top of the block of an event give the event k + 1 confirmations)
+BurySet(K) == K.bury \cup {k \in {c - 1 + o : c \in DepthConsts(K), o \in K.around} : k >= 1}
 
 \* block alphabet: single transactions, and pairs (creator first)
 Coherent(K, b) ==
@@ -119,7 +142,7 @@ Blocks(K) ==
 (* State                                                                   *)
 (***************************************************************************)
 NoChan == [ph |-> "none", bh |-> -1, fg |-> FALSE, fh |-> -1, dsh |-> -1, mch |-> -1, uch |-> -1,
-           ct |-> "none", our |-> "na", ht |-> "na", sl |-> "na", csh |-> -1]
+           ct |-> "none", our |-> "na", ht |-> "na", sl |-> "na", csh |-> -1, oosh |-> -1]
 Stub(bh)   == [NoChan EXCEPT !.ph = "stub", !.bh = bh]
 FreshReady == [NoChan EXCEPT !.ph = "ready"]
 
@@ -133,7 +156,12 @@ InitState(K) ==
 \* ClosingOutpoints::is_all_spent
 Swept(c) == c.ct # "none" /\ c.our \in {"na", "s"} /\ c.ht \in {"na", "s"} /\ c.sl \in {"na", "s"}
 
-\* State::depth_of / deep_enough_and_saw_node_forget / is_done
+\* State::is_our_output_swept: the closing transaction's output to the node is spent, or does not exist
+OurSwept(c) == c.ct # "none" /\ c.our \in {"na", "s"}
+
+\* State::depth_of / deep_enough_and_saw_node_forget / is_done.  The three events below, each with MIN_DEPTH,
+\* are the only ones: our_output_swept_height (oosh) and MAX_CLOSING_DEPTH (K.DX) feed diagnostic() only, so
+\* no depth of a partly swept close (or of the funding / the close alone) makes a channel done.
 DepthOf(h, e) == IF e = -1 THEN 0 ELSE Max2(h + 1 - e, 0)
 IsDone(K, c, h) ==
   \/ DepthOf(h, c.dsh) >= K.D /\ c.fg
@@ -167,8 +195,9 @@ ToksOf(K, b, d) == SelectSeq(b, LAMBDA id : K.tx[id].d = d)
 \* on_add_block_end for the monitor of channel d (only a ready channel has a listener)
 ConnectChan(K, c, d, b, n) ==
   IF c.ph # "ready" THEN c
-  ELSE LET c1 == FoldLeft(LAMBDA a, id : FwdTok(a, K.tx[id].k, n), c, ToksOf(K, b, d)) IN
-       IF ~Swept(c) /\ Swept(c1) THEN [c1 EXCEPT !.csh = n] ELSE c1
+  ELSE LET c1 == FoldLeft(LAMBDA a, id : FwdTok(a, K.tx[id].k, n), c, ToksOf(K, b, d))
+           c2 == IF ~Swept(c) /\ Swept(c1) THEN [c1 EXCEPT !.csh = n] ELSE c1 IN
+       IF ~OurSwept(c) /\ OurSwept(c1) THEN [c2 EXCEPT !.oosh = n] ELSE c2
 
 \* on_remove_block_end: the change list re-derived from the post-block state is applied with the
 \* backward rules in forward order unless K.rev; the backward rule of a spend of a closing output
@@ -180,8 +209,9 @@ DisconnectAborts(K, c, d, b) == c.ph = "ready" /\ ~K.rev /\ SpendsInBlock(K, Tok
 DisconnectChan(K, c, d, b, n) ==
   IF c.ph # "ready" THEN c
   ELSE LET toks == IF K.rev THEN Reverse(ToksOf(K, b, d)) ELSE ToksOf(K, b, d)
-           c1 == FoldLeft(LAMBDA a, id : BwdTok(a, K.tx[id].k, n), c, toks) IN
-       IF Swept(c) /\ ~Swept(c1) THEN [c1 EXCEPT !.csh = -1] ELSE c1
+           c1 == FoldLeft(LAMBDA a, id : BwdTok(a, K.tx[id].k, n), c, toks)
+           c2 == IF Swept(c) /\ ~Swept(c1) THEN [c1 EXCEPT !.csh = -1] ELSE c1 IN
+       IF OurSwept(c) /\ ~OurSwept(c1) THEN [c2 EXCEPT !.oosh = -1] ELSE c2
 
 (***************************************************************************)
 (* Environment: which blocks can be mined on the current chain              *)
@@ -203,7 +233,7 @@ Requests(K) ==
        {Req(op, d, <<>>, 0) : op \in {"New", "Setup", "Forget"}, d \in 1..K.maxd}
   \cup {Req("Heartbeat", 0, <<>>, 0), Req("Restart", 0, <<>>, 0), Req("Disconnect", 0, <<>>, 0)}
   \cup {Req("Connect", 0, b, 0) : b \in (IF K.empty THEN {<<>>} ELSE {}) \cup Blocks(K)}
-  \cup {Req(op, 0, <<>>, k) : op \in {"Bury", "Unbury"}, k \in K.bury}
+  \cup {Req(op, 0, <<>>, k) : op \in {"Bury", "Unbury"}, k \in BurySet(K)}
   \cup (IF K.crash
         THEN \* (k = 0 is a plain Restart: nothing of the request is durable)
                   {Req("NewCrash", d, <<>>, 1) : d \in 1..K.maxd}
@@ -264,6 +294,11 @@ Repeat(K, s, req, k) ==
   ELSE LET o == IF req = "C" THEN Connect(K, s, <<>>) ELSE Disconnect(K, s) IN
        IF o.rc # "ok" THEN o ELSE Repeat(K, o.s, req, k - 1)
 
+\* Bury(k) in closed form (k may be MAX_CLOSING_DEPTH and more): an empty block changes no monitor and is
+\* never refused, so k of them only move the height and fill the header window.  MC_Lifecycle checks
+\* BuryK = Repeat(.., "C", k) in every reachable model state (BuryLemma).
+BuryK(K, s, k) == R("ok", [s EXCEPT !.h = @ + k, !.hw = Min2(@ + k, K.W)])
+
 (***************************************************************************)
 (* Crash points inside a request (plain, non-transactional store): the      *)
 (* request runs until k store writes are durable, then the signer stops; a  *)
@@ -311,7 +346,7 @@ Step(K, s, r) ==
     [] r.op = "Restart"    -> R("ok", s)                \* everything above is durable
     [] r.op = "Connect"    -> Connect(K, s, r.b)
     [] r.op = "Disconnect" -> Disconnect(K, s)
-    [] r.op = "Bury"       -> Repeat(K, s, "C", r.k)
+    [] r.op = "Bury"       -> BuryK(K, s, r.k)
     [] r.op = "Unbury"     -> LET o == Repeat(K, s, "D", r.k) IN     \* an abort leaves no signer
                               IF o.rc = "panic" THEN R("panic", s) ELSE o
 
